@@ -226,12 +226,16 @@ func isAligned(fromDomain, authDomain string, mode AlignmentMode) bool {
 func ExtractFromDomain(hdr textproto.Header) (string, error) {
 	// TODO(GH emersion/go-message#75): Add textproto.Header.Count method.
 	var firstFrom string
+	fromCount := 0
 	for fields := hdr.FieldsByKey("From"); fields.Next(); {
-		if firstFrom == "" {
+		// An empty value of the first field does not make the second one
+		// the only field.
+		if fromCount == 0 {
 			firstFrom = fields.Value()
 		} else {
 			return "", errors.New("dmarc: multiple From header fields are not allowed")
 		}
+		fromCount++
 	}
 	if firstFrom == "" {
 		return "", errors.New("dmarc: missing From header field")
